@@ -449,3 +449,46 @@ fire("c14_duplicate_shallow_tuple", "C14", [(NODE, "                changes[f.na
 fire("c14_duplicate_no_tuple_branch", "C14", [(NODE, "            elif isinstance(obj, tuple):\n                changes[f.name] = tuple(c.duplicate() for c in obj)\n", "")], "R-DUP-SANITIZE")
 fire("c14_replace_no_unregister", "C14", [(NODE, "        ori_n = self if _unregister(self) else None\n", "        ori_n = None\n")])
 fire("c14_duplicate_detaches_original", "C14", [(NODE, "        changes: dict[str, Any] = {}\n        for obj, f in self.iter_child_fields():", "        _unregister(self)\n        changes: dict[str, Any] = {}\n        for obj, f in self.iter_child_fields():")], "R-REPLACE-FORM")
+
+# ---------------------------------------------------------------- C15
+fire("c15_origin_contains", "C15", [(ORIGIN, "        return self.start <= other.start and other.end <= self.end", "        return self.start <= other.start")], "R-INTERVAL-LAWS")
+fire("c15_overlap_strict", "C15", [(ORIGIN, "        return self.end >= other.start and self.start <= other.end", "        return self.end > other.start and self.start < other.end")], "R-INTERVAL-LAWS")
+fire("c15_hull_min_end", "C15", [(ORIGIN, "CodeRange(start=min(self.start, other.start), end=max(self.end, other.end))", "CodeRange(start=min(self.start, other.start), end=max(self.start, other.end))")], "R-INTERVAL-LAWS")
+fire("c15_lt_le", "C15", [(ORIGIN, "        return self.end < other.start\n", "        return self.end <= other.start\n")], "R-INTERVAL-LAWS")
+fire("c15_ctor_guard_off", "C15", [(ORIGIN, "        if self.start > self.end:\n            raise ValueError", "        if self.start >= self.end:\n            raise ValueError")], "R-INTERVAL-LAWS")
+fire("c15_point_guard", "C15", [(ORIGIN, "        if self.line < 1:", "        if self.line < 0:")], "R-INTERVAL-LAWS")
+fire("c15_point_lt_by_line", "C15", [(ORIGIN, "        return self.index < other.index", "        return self.line < other.line")])
+fire("c15_add_ignores_source", "C15", [(ORIGIN, "        if self.source != other.source or not self.position.overlaps(other.position):", "        if not self.position.overlaps(other.position):")], "R-ADD-FORM")
+fire("c15_add_other_source", "C15", [(ORIGIN, "        return CodeOrigin(source=self.source, position=self.position + other.position)", "        return CodeOrigin(source=other.source, position=self.position)")], "R-ADD-FORM")
+fire("c15_merge_keeps_noorigin", "C15", [(ORIGIN, "        if isinstance(origin, NoOrigin):\n            continue\n        elif isinstance(origin, MultiOrigin):", "        if isinstance(origin, MultiOrigin):")], "R-MERGE-FLAT")
+fire("c15_merge_nests", "C15", [(ORIGIN, "            new_origins.extend(origin.origins)", "            new_origins.append(origin)")], "R-MERGE-FLAT")
+fire("c15_merge_single_wrapped", "C15", [(ORIGIN, "    if len(new_origins) == 1:\n        return new_origins[0]\n", "")], "R-MERGE-FLAT")
+fire("c15_multi_sorted_sources", "C15", [(ORIGIN, "SourceSet(tuple([origin.source for origin in self.origins]))", "SourceSet(tuple(sorted([origin.source for origin in self.origins], key=str)))")], "R-MERGE-FLAT")
+fire("c15_slice_off_by_one", "C15", [(ORIGIN, "code[self.position.start.index : self.position.end.index]", "code[self.position.start.index : self.position.end.index + 1]")], "R-SLICE")
+fire("c15_foreign_multiorigin", "C15", [(ORIGIN, "        return merge_origins(self, other)\n", "        if isinstance(other, MultiOrigin):\n            return MultiOrigin(origins=[self, other])\n        return merge_origins(self, other)\n")])
+silent("c15_equivalent", "C15", [(ORIGIN, "        return self.start <= other.start and other.end <= self.end", "        return not (other.start < self.start) and not (self.end < other.end)"),
+                                  (ORIGIN, "        return self.end >= other.start and self.start <= other.end", "        return other.start <= self.end and other.end >= self.start")])
+
+# ---------------------------------------------------------------- C13
+fire("c13_F14_reverted", "C13", [(TYPING, "    if type_ is int and (value is True or value is False):", "    if type_ is int and value is True or value is False:")], "R-BOOLGUARD-TT")
+fire("c13_guard_only_true", "C13", [(TYPING, "    if type_ is int and (value is True or value is False):", "    if type_ is int and value is True:")], "R-BOOLGUARD-TT")
+fire("c13_guard_removed", "C13", [(TYPING, "    if type_ is int and (value is True or value is False):\n        return False\n", "")], "R-BOOLGUARD-TT")
+fire("c13_typing_tuple_len", "C13", [(TYPING, "                if len(args) != len(value):\n                    return False\n", "")], "R-ZIPGUARD")
+fire("c13_tuple_len_le", "C13", [(TYPING, "                if len(args) != len(value):", "                if len(args) > len(value):")], "R-ZIPGUARD")
+fire("c13_gate_inverted", "C13", [(NODE, "        if config.RUNTIME_TYPE_CHECK:\n            incorrect_fields", "        if not config.RUNTIME_TYPE_CHECK:\n            incorrect_fields")], "R-GATE")
+fire("c13_gate_skips_noninit", "C13", [(NODE, '                    if f.name not in ("id", "content_id")\n', '                    if f.name not in ("id", "content_id") and f.init\n')], "R-GATE")
+fire("c13_check_inverted", "C13", [(NODE, "        if not is_instance(val, type_info.resolved_type):\n            incorrect_fields.append(f)", "        if is_instance(val, type_info.resolved_type):\n            incorrect_fields.append(f)")], "R-GATE")
+fire("c13_gate_side_effect", "C13", [(NODE, "            if incorrect_fields:\n                raise InvalidTypes(incorrect_fields)\n", "            if incorrect_fields:\n                raise InvalidTypes(incorrect_fields)\n            object.__setattr__(self, \"_checked\", True)\n")], "R-GATE")
+silent("c13_guard_isinstance_form", "C13", [(TYPING, "    if type_ is int and (value is True or value is False):", "    if isinstance(value, bool) and type_ is int:")])
+
+# ---------------------------------------------------------------- C09
+fire("c09_vis_strict_ignored", "C09", [(NODE, "        if visitor.strict:\n            visitor_method = getattr(visitor, f\"visit_{self.__class__.__name__}\", None)\n        else:\n            mro = getmro(self.__class__)", "        if False:\n            visitor_method = getattr(visitor, f\"visit_{self.__class__.__name__}\", None)\n        else:\n            mro = getmro(self.__class__)")], "R-DISPATCH")
+fire("c09_mro_reversed", "C09", [(NODE, "            for _class in mro[:-1]:", "            for _class in reversed(mro[:-1]):")], "R-DISPATCH")
+fire("c09_mro_no_break", "C09", [(NODE, "                if visitor_method is not None:\n                    break\n", "                if visitor_method is not None:\n                    pass\n")], "R-DISPATCH")
+fire("c09_strict_walks_base", "C09", [(NODE, '            visitor_method = getattr(visitor, f"visit_{self.__class__.__name__}", None)\n        else:', '            visitor_method = getattr(visitor, f"visit_{self.__class__.__base__.__name__}", None)\n        else:')], "R-DISPATCH")
+fire("c09_tr_removed_not_marked", "C09", [(VISITOR, "                else:\n                    # Removed child, mark as changed field\n                    field_names_with_changes.add(fname)\n", "")], "R-TRANSFORM-PATH")
+fire("c09_tr_eq_instead_of_is", "C09", [(VISITOR, "                    if new_child is not child:\n                        # New child, mark as changed field\n                        field_names_with_changes.add(fname)\n                else:", "                    if new_child != child:\n                        # New child, mark as changed field\n                        field_names_with_changes.add(fname)\n                else:")], "R-TRANSFORM-PATH")
+fire("c09_tr_single_not_marked", "C09", [(VISITOR, "                changes[fname] = new_child\n\n                if new_child is not child:\n                    # New child, mark as changed field\n                    field_names_with_changes.add(fname)\n", "                changes[fname] = new_child\n")], "R-TRANSFORM-PATH")
+fire("c09_tr_keeps_unmarked", "C09", [(VISITOR, "        changes = {fname: changes[fname] for fname in field_names_with_changes}\n", "")], "R-TRANSFORM-PATH")
+fire("c09_generic_visit_copies", "C09", [(VISITOR, "        if not changes:\n            return node\n", "")], "R-IDENT-RETURN")
+silent("c09_equivalent", "C09", [(VISITOR, "        if not changes:\n            return node\n\n        # Return a new node with the changes\n        return replace(node, **changes)", "        if changes:\n            return replace(node, **changes)\n        return node")])
